@@ -367,7 +367,7 @@ func runPlans(c *core.Ctx, plans []Plan) {
 			c.Sample(map[string]any{"scenario": sc.Name, "preemption_bound_completed": st.CompletedP, "executions": st.Execs, "executions_at_last_bound": st.LastExecs, "cut_short_by_state_cache": st.Pruned, "alternatives_skipped_by_state_cache": st.Skipped, "sample_execution": st.Sample})
 		}
 		fmt.Printf("  scenario %-28s bound_completed=%d executions=%d (last bound %d) cut_by_cache=%d skipped_by_cache=%d outcomes=%d violations=%d\n", sc.Name, st.CompletedP, st.Execs, st.LastExecs, st.Pruned, st.Skipped, len(st.Outcomes), len(st.Viol))
-		if st.CompletedP < opts[i].PBound && len(st.Viol) == 0 {
+		if opts[i].PBound >= 0 && st.CompletedP < opts[i].PBound && len(st.Viol) == 0 {
 			incomplete++
 			c.NotExhaustive(fmt.Sprintf("%s: time budget, bound %d completed (target %d)", sc.Name, st.CompletedP, opts[i].PBound))
 		}
